@@ -44,10 +44,13 @@ EXPECTED_PROBES = ["alt_spelling_hit", "with_nested", "with_restored_insert", "w
                    "device_rejected", "device_accepted", "get_missing_raised", "get_default_used",
                    "kw_form", "mapping_value_replaced_subtree", "global_arm", "device_via_defaults_rejected",
                    "device_via_defaults_accepted", "falsy_value_set", "falsy_value_read_with_default",
-                   "same_key_in_mapping_and_kwargs"]
+                   "same_key_in_mapping_and_kwargs", "doubled_separator_key_in_mapping"]
 
 NODES = ["n1", "sec_a", "grp_b_c"]
-LEAVES = ["x", "y", "opt_one", "lim_lo_hi", "verbose"]
+LEAVES = ["x", "y", "opt_one", "lim_lo_hi", "verbose", "dd__k"]
+# "dd__k" / "dd--k": a FLAT key with a doubled separator.  Only the keyword form turns '__' into a
+# level separator; in a mapping the key is one entry (items with such a segment always travel in
+# the mapping part of a call).
 ACCEPT_DEV = ["cpu", "CPU", "cpu:0", None, "torch:cpu"]
 REJECT_DEV = ["gpu", "GPU", "cuda", "cuda:0", "cuda:7", "mps", "tpu", "", "cuda:abc", 0, 1, -1, 3.5,
               "torch:cuda", "torch:cuda:3", "xpu:0", "meta"]
@@ -383,6 +386,9 @@ def run(plan):
                         bump(probes, "falsy_value_set")
                 as_kw = op.get("form") == "kw" or (both and (it.get("_force") == "kw" or (
                     it.get("_force") is None and q_ % 2 == 1)))
+                if any("__" in x or "--" in x for x in sp):
+                    as_kw = False
+                    bump(probes, "doubled_separator_key_in_mapping")
                 if as_kw:
                     kws["__".join(sp)] = val
                 else:
@@ -390,7 +396,9 @@ def run(plan):
                 assigns.append((_npath(it["path"]), mval, "map" in it, as_kw))
             # real order of application: mapping entries first, then keyword arguments
             assigns = [a_[:3] for a_ in assigns if not a_[3]] + [a_[:3] for a_ in assigns if a_[3]]
-            return (mp if (op.get("form") != "kw" and (mp or not kws)) else None), kws, assigns
+            if op.get("form") == "kw":
+                return (mp or None), kws, assigns
+            return (mp if (mp or not kws) else None), kws, assigns
 
         def note_spelling(path_segs_spelled, npath):
             # did this spelling differ from the spelling stored first?
